@@ -298,7 +298,7 @@ impl Prop for Isolated {
         "isolated"
     }
     fn cases(&self, tier: Tier) -> u64 {
-        tier.pick(300_000, 6_000_000)
+        tier.pick(300_000, 2_000_000)
     }
     fn strategy(&self, tier: Tier) -> BoxedStrategy<ICase> {
         let p = Profile::all();
@@ -634,7 +634,7 @@ impl Prop for Mixed {
         "mixed"
     }
     fn cases(&self, tier: Tier) -> u64 {
-        tier.pick(300_000, 6_000_000)
+        tier.pick(300_000, 2_000_000)
     }
     fn strategy(&self, tier: Tier) -> BoxedStrategy<MCase> {
         let p = Profile::sequences_unique();
